@@ -612,7 +612,7 @@ C09: adversarial block-signature payloads inside otherwise valid events of a
 Byzantine validator.
 *******************************************************************************/
 
-var sigForgeOps = []string{"other-body", "future-block", "unknown-block", "malformed", "duplicate", "stranger-style", "valid-own", "negative-index", "swapped-index"}
+var sigForgeOps = []string{"other-body", "future-block", "unknown-block", "malformed", "duplicate", "stranger-style", "valid-own", "negative-index", "swapped-index", "own-leave-request", "valid-own"}
 
 func (c *Cluster) byzSigStep(s *Step) {
 	victim := c.nodeAt(s.A)
@@ -719,11 +719,29 @@ func (c *Cluster) byzSigStep(s *Step) {
 			}
 		}
 	}
-	if len(sigs) == 0 {
+	var itxs []hg.InternalTransaction
+	if op == "own-leave-request" {
+		// the Byzantine validator asks to leave (a valid, self-signed request in a
+		// valid event) and goes on creating events afterwards: once its removal is
+		// in force its block signatures are those of a participant that is known
+		// to everybody but is no member of the blocks' validator sets
+		if c.cfg.Profile != "C09" || c.byzLeaveAsked || !contains(c.vs.latest(), byz.pubHex) || len(c.vs.latest()) < 4 {
+			return
+		}
+		itx := hg.NewInternalTransactionLeave(*byz.peer())
+		itx.Sign(byz.key)
+		itxs = []hg.InternalTransaction{itx}
+		c.byzLeaveAsked = true
+		c.stats.probe("c09-byzantine-validator-asks-to-leave")
+	}
+	if len(sigs) == 0 && len(itxs) == 0 {
 		return
 	}
+	if op == "valid-own" && !contains(c.vs.latest(), byz.pubHex) {
+		c.stats.probe("c09-signature-of-a-departed-validator")
+	}
 	other := c.someEventAt(victim, r)
-	ev := newEvent(byz, spIdx+1, sp, other, nil, nil, sigs, int64(946684800+c.stepNo))
+	ev := newEvent(byz, spIdx+1, sp, other, nil, itxs, sigs, int64(946684800+c.stepNo))
 	signEvent(ev, byz)
 	c.byzLast = ev
 	c.stats.probe("c09-hostile-signatures:" + op)
